@@ -3,7 +3,7 @@ import json, os
 import core
 from stages.common import *
 
-MON_C17 = {"Mon_SameParamsSameHash", "Mon_DiffParamsDiffHash", "Mon_TamperRejected"}
+MON_C17 = {"Mon_SameParamsSameHash", "Mon_DiffParamsDiffHash", "Mon_TamperRejected", "Mon_DecodedHashIsDeclared"}
 
 
 def run(ctx, monitors):
@@ -16,12 +16,15 @@ def run(ctx, monitors):
     else:
         ctx.model_check("Hashes", "MC_Hashes_chain.cfg", workers=W, timeout=300, coverage=not q)
         ctx.model_check("Hashes", "MC_Hashes_group.cfg", workers=W, timeout=900)
+        ctx.model_check("Hashes", "MC_Hashes_chainseq.cfg", workers=W, timeout=300)
+        ctx.model_check("Hashes", "MC_Hashes_groupseq.cfg" if q else "MC_Hashes_groupseq_big.cfg", workers=W, timeout=1500)
         if not q:
             ctx.model_check("Hashes", "MC_Hashes_group_big.cfg", workers=W, timeout=2400)
     # ---- 2. spec -> code: TLC walks per family + the complete chain-info catalogue
     scripts = []
-    nwalk = {"chain": 6 if q else 40, "group": 14 if q else 120}
-    for fam in ("chain", "group"):
+    # chainseq / groupseq: ONE live value per walk (assign in place, decode into it, copy, re-hash)
+    nwalk = {"chain": 6 if q else 40, "group": 14 if q else 120, "chainseq": 8 if q else 60, "groupseq": 8 if q else 60}
+    for fam in ("chain", "group", "chainseq", "groupseq"):
         sim = ctx.model_check("Sim_Hashes", "Sim_Hashes_%s.cfg" % fam, workers=1, simulate="num=%d" % nwalk[fam],
                               depth=42, seed=ctx.seed, timeout=900)
         k = 0
@@ -57,7 +60,9 @@ def run(ctx, monitors):
     drift = []
     for a in alarms:
         if a["mon"] in monitors:
-            if a["mon"] == "Mon_TamperRejected":
+            if a["mon"] == "Mon_DecodedHashIsDeclared":
+                sig = {"stage": "hashes", "mon": a["mon"], "decoder": "InfoFromProto" if a["how"][0] == "proto" else "Info.UnmarshalJSON"}
+            elif a["mon"] == "Mon_TamperRejected":
                 sig = {"stage": "hashes", "mon": a["mon"],
                        "decoder": "InfoFromProto" if a["how"][0] in ("proto", "hexjson") else "Info.UnmarshalJSON"}
             else:
